@@ -240,7 +240,6 @@ fn parse_tier(s: &str) -> Tier {
 
 pub fn worker_main(scratch: &str) {
     unsafe {
-        libc::prctl(libc::PR_SET_CHILD_SUBREAPER, 1, 0, 0, 0);
         libc::signal(libc::SIGPIPE, libc::SIG_IGN);
     }
     let verif = crate::verif_dir();
@@ -286,7 +285,124 @@ pub fn worker_main(scratch: &str) {
     }
 }
 
+/// Run one job inside fresh PID and mount namespaces: the simulator is pid 1,
+/// process ids and tmpfs inode numbers restart for every run (both leak into
+/// record lengths and log text, so they must not vary between runs of a seed),
+/// and every leftover process dies with the namespace.
 fn execute(job: &Job, paths: &Paths) -> RunResult {
+    let index = match job {
+        Job::Gen { index, .. } => *index,
+        _ => 0,
+    };
+    let fail = |m: String| RunResult {
+        index,
+        harness_error: Some(m),
+        ..Default::default()
+    };
+    let mut fds = [0i32; 2];
+    if unsafe { libc::pipe2(fds.as_mut_ptr(), libc::O_CLOEXEC) } < 0 {
+        return fail("pipe".into());
+    }
+    let pid = unsafe { libc::fork() };
+    if pid < 0 {
+        return fail("fork".into());
+    }
+    if pid == 0 {
+        unsafe {
+            libc::close(fds[0]);
+            if libc::unshare(libc::CLONE_NEWPID | libc::CLONE_NEWNS) < 0 {
+                let m = serde_json::to_string(&fail(format!(
+                    "unshare: {}",
+                    std::io::Error::last_os_error()
+                )))
+                .unwrap();
+                libc::write(fds[1], m.as_ptr() as *const _, m.len());
+                libc::_exit(0);
+            }
+            let p2 = libc::fork();
+            if p2 != 0 {
+                libc::close(fds[1]);
+                let mut st = 0;
+                libc::waitpid(p2, &mut st, 0);
+                libc::_exit(0);
+            }
+            // pid 1 of the new namespace
+            libc::prctl(libc::PR_SET_PDEATHSIG, libc::SIGKILL);
+            let none = std::ptr::null::<libc::c_char>();
+            libc::mount(
+                none,
+                b"/\0".as_ptr() as *const _,
+                none,
+                libc::MS_REC | libc::MS_PRIVATE,
+                std::ptr::null(),
+            );
+            libc::mount(
+                b"proc\0".as_ptr() as *const _,
+                b"/proc\0".as_ptr() as *const _,
+                b"proc\0".as_ptr() as *const _,
+                0,
+                std::ptr::null(),
+            );
+            let sc = std::ffi::CString::new(paths.scratch.to_str().unwrap()).unwrap();
+            libc::mount(
+                b"tmpfs\0".as_ptr() as *const _,
+                sc.as_ptr(),
+                b"tmpfs\0".as_ptr() as *const _,
+                0,
+                b"size=1g\0".as_ptr() as *const _,
+            );
+        }
+        let r = execute_inner(job, paths);
+        let m = serde_json::to_string(&r).unwrap();
+        let mut b = m.as_bytes();
+        while !b.is_empty() {
+            let n = unsafe { libc::write(fds[1], b.as_ptr() as *const _, b.len()) };
+            if n <= 0 {
+                break;
+            }
+            b = &b[n as usize..];
+        }
+        unsafe { libc::_exit(0) };
+    }
+    unsafe { libc::close(fds[1]) };
+    let mut data = Vec::new();
+    let t0 = Instant::now();
+    let mut timed_out = false;
+    loop {
+        let mut pfd = libc::pollfd {
+            fd: fds[0],
+            events: libc::POLLIN,
+            revents: 0,
+        };
+        let r = unsafe { libc::poll(&mut pfd, 1, 1000) };
+        if r > 0 {
+            let mut buf = [0u8; 65536];
+            let n = unsafe { libc::read(fds[0], buf.as_mut_ptr() as *mut _, buf.len()) };
+            if n <= 0 {
+                break;
+            }
+            data.extend_from_slice(&buf[..n as usize]);
+        } else if t0.elapsed().as_secs() > 240 {
+            timed_out = true;
+            unsafe { libc::kill(pid, libc::SIGKILL) };
+            break;
+        }
+    }
+    unsafe {
+        libc::close(fds[0]);
+        let mut st = 0;
+        libc::waitpid(pid, &mut st, 0);
+    }
+    if timed_out {
+        return fail("run exceeded the 240 s wall-clock watchdog".into());
+    }
+    match serde_json::from_slice::<RunResult>(&data) {
+        Ok(r) => r,
+        Err(e) => fail(format!("run process died without a result: {}", e)),
+    }
+}
+
+fn execute_inner(job: &Job, paths: &Paths) -> RunResult {
     let t0 = Instant::now();
     let (case, index, want_case, pin) = match job {
         Job::Gen {
